@@ -136,7 +136,7 @@ def ParseR(line):
 
 def Validate(records, tag, shards):
   """Runs LLexTrace over the records; returns ({id: report}, stats, errors)."""
-  d = common.BuildDir('trace', tag)
+  d = common.BuildDir('trace', tag + sg.ScratchTag())
   for f in os.listdir(d):
     os.unlink(os.path.join(d, f))
   shards = max(1, min(shards, len(records)))
